@@ -12,6 +12,7 @@ import sys
 import tempfile
 
 VERIF = os.path.dirname(os.path.dirname(os.path.abspath(__file__)))
+REPO = os.environ.get('SEED_REPO', '/repo')   # a clone of /repo may be used so that /repo itself stays free for other work
 
 
 def sh(cmd, cwd=None, env=None, timeout=1800):
@@ -26,11 +27,11 @@ def main():
     patch = os.path.join(d, 'patch.diff')
     demo = os.path.join(d, 'demo.py')
     res = {'dir': d, 'props': props}
-    assert sh('git -C /repo status --porcelain --untracked-files=no')[1].strip() == '', '/repo is dirty'
+    assert sh('git -C %s status --porcelain --untracked-files=no' % REPO)[1].strip() == '', '/repo is dirty'
     wt = tempfile.mkdtemp(prefix='seedwt_', dir='/tmp')
     os.rmdir(wt)
     try:
-        rc, out = sh('git -C /repo worktree add --detach %s HEAD -q' % wt)
+        rc, out = sh('git -C %s worktree add --detach %s HEAD -q' % (REPO, wt))
         assert rc == 0, out
         env = dict(os.environ, TREE=wt)
         rc0, out0 = sh('/venv/bin/python %s' % demo, cwd=wt, env=env, timeout=600)
@@ -46,14 +47,14 @@ def main():
             rct, outt = sh('/venv/bin/python -m pytest -q -p no:cacheprovider --continue-on-collection-errors 2>&1 | tail -1', cwd=wt)
             res['tests_tail'] = outt.strip()
     finally:
-        sh('git -C /repo worktree remove --force %s' % wt)
+        sh('git -C %s worktree remove --force %s' % (REPO, wt))
     if res.get('applies'):
         try:
-            rc, out = sh('git -C /repo apply %s' % patch)
+            rc, out = sh('git -C %s apply %s' % (REPO, patch))
             assert rc == 0, out
             res['checks'] = {}
             for p in props:
-                rc, out = sh('./check %s %s' % (p, tier), cwd=VERIF, timeout=3000)
+                rc, out = sh('./check %s %s' % (p, tier), cwd=VERIF, timeout=3000, env=dict(os.environ, VERIF_REPO_ROOT=REPO))
                 lines = [l for l in out.splitlines() if l.startswith('VIOLATION') or l.startswith('KNOWN') or l.startswith(p + ' ')]
                 res['checks'][p] = {'rc': rc, 'lines': lines[-4:]}
                 for l in lines:
@@ -67,8 +68,8 @@ def main():
                         except Exception as e:
                             res['checks'][p]['replay_err'] = repr(e)
         finally:
-            sh('git -C /repo checkout -- .')
-            assert sh('git -C /repo status --porcelain --untracked-files=no')[1].strip() == ''
+            sh('git -C %s checkout -- .' % REPO)
+            assert sh('git -C %s status --porcelain --untracked-files=no' % REPO)[1].strip() == ''
     json.dump(res, open(os.path.join(d, 'result.json'), 'w'), indent=1)
     print(json.dumps(res, indent=1))
 
